@@ -133,16 +133,16 @@ class U4Gen(AGen):
     def est(self, **kw):
         r = self.rng
         seq = self._seq()
-        ue = "chv4" if (self.cfg["ueip_alloc"] and r.random() < 0.4) else self.own_ue()
-        nq = r.choice([0, 1, 2])
+        ue = "chv4" if (self.cfg["ueip_alloc"] and r.random() < 0.4 and not kw.get("plain")) else self.own_ue()
+        nq = kw["nq"] if "nq" in kw else r.choice([0, 1, 2])
         qids = list(range(1, nq + 1))
         prec = r.choice([10, 100, 200, 255])
-        choose = r.random() < 0.5
+        choose = r.random() < 0.5 and not kw.get("plain")
         ul = {"id": 1, "prec": prec, "iface": 0, "fteid": "choose" if choose else (self._teid(), l1.ACCESS_IP),
               "ue": (None if ue == "chv4" else ue), "ohr": True, "far": 1, "qers": qids}
         dl = {"id": 2, "prec": prec, "iface": 1, "ue": ue, "far": 2, "qers": qids}
-        if r.random() < 0.7:
-            k = r.randrange(len(APP_SDFS))
+        if (kw["app"] is not None) if "app" in kw else (r.random() < 0.7):
+            k = kw["app"] if kw.get("app") is not None else r.randrange(len(APP_SDFS))
             t = APP_SDFS[k]
             # the Applications entry is inserted with the first user's precedence as priority and deleted with the last
             # user's (sequential behaviour, C04's business): sessions sharing a filter use one precedence here
@@ -151,7 +151,7 @@ class U4Gen(AGen):
             ul["sdf"], ul["sdf_sem"] = sd["text"], sd
             dl["sdf"], dl["sdf_sem"] = sd["text"], sd
         ulf = {"id": 1, "action": 2, "fwd": {"dst_if": 1}}
-        dlf = {"id": 2, "action": 2, "fwd": {"dst_if": 0, "ohc": (self._teid(), r.choice(ENBS))}}
+        dlf = {"id": 2, "action": 2, "fwd": {"dst_if": 0, "ohc": (self._teid(), kw["enb"] if "enb" in kw else r.choice(ENBS))}}
         qers = [{"id": q, "qfi": r.choice([5, 9]), "gate": (0, 0), "mbr": r.choice([(1000, 2000), (50000, 60000)]), "gbr": (0, 0)} for q in qids]
         pdrs, fars = [ul, dl], [ulf, dlf]
         k = self.next_lseid.get(self.conn, 0) + 1
@@ -238,6 +238,100 @@ def reconnect_scenario(rng, nconn, nsess, tag):
     sc["input"]["drop_conn_ms"] = sorted(rng.randrange(5, 500) for _ in range(8))
     sc["judge"] = "races"
     return sc
+
+
+HANDOFF_KINDS = {   # kind -> (table held, update type, what association A does meanwhile, shared object)
+    "peer-delete": ("tunnel_peers", "DELETE", "del", "peer"),
+    "peer-insert": ("tunnel_peers", "INSERT", "est", "peer"),
+    "app-delete": ("applications", "DELETE", "del", "app"),
+    "app-insert": ("applications", "INSERT", "est", "app"),
+}
+
+
+def handoff_scenario(rng, kind, mode, tag):
+    """two associations and one shared UP4 object (a tunnel peer or an application filter).  mode "hold": the P4Runtime
+    server holds association A's write of the shared object's table while association B establishes a session that uses the
+    same object; modes "AB" / "BA": the same two requests one after the other (the one-at-a-time outcomes)."""
+    table, utype, a_does, shared = HANDOFF_KINDS[kind]
+    cfg = l1.default_cfg(pool="10.250.0.0/22", end_marker=False)
+    cfg["core_ip"] = "0.0.0.0"
+    ga, gb = U4Gen(random.Random(rng.getrandbits(64)), cfg, 0), U4Gen(random.Random(rng.getrandbits(64)), cfg, 1)
+    spec = {"plain": True, "nq": 0}
+    sa = dict(spec, enb=ENBS[0], app=(0 if shared == "app" else None))
+    sb = dict(spec, enb=(ENBS[0] if shared == "peer" else ENBS[1]), app=(0 if shared == "app" else None))
+
+    def cut(g):
+        evs = [{"hex": e["hex"], "draws": e.get("draws", []), "sess": e.get("sess", -1)} for e in g.events[g._cut:]]
+        g._cut = len(g.events)
+        return evs
+    ga._cut = gb._cut = 0
+    script, views = [], []
+    ga.setup(0), gb.setup(1)
+    if a_does == "del":
+        la = ga.est(**sa)
+    script.append({"op": "run", "conn": 0, "events": cut(ga)})
+    script.append({"op": "run", "conn": 1, "events": cut(gb)})
+    if a_does == "del":
+        ga.dele(la)
+    else:
+        la = ga.est(**sa)
+    lb = gb.est(**sb)
+    ea, eb = cut(ga), cut(gb)
+    if mode == "hold":
+        script += [{"op": "hold", "table": table, "type": utype, "count": 1, "max_ms": 4000},
+                   {"op": "start", "conn": 0, "events": ea, "name": "a"},
+                   {"op": "wait_held", "n": 1, "ms": 2000},
+                   {"op": "start", "conn": 1, "events": eb, "name": "b"},
+                   {"op": "wait_done", "name": "b", "ms": 500},
+                   {"op": "release"}, {"op": "join"}]
+    elif mode == "AB":
+        script += [{"op": "run", "conn": 0, "events": ea}, {"op": "run", "conn": 1, "events": eb}]
+    else:
+        script += [{"op": "run", "conn": 1, "events": eb}, {"op": "run", "conn": 0, "events": ea}]
+    script.append({"op": "snap"})
+    views.append((ga.view(), gb.view()))
+    for l in list(ga.sessions):
+        ga.dele(l)
+    for l in list(gb.sessions):
+        gb.dele(l)
+    script += [{"op": "run", "conn": 0, "events": cut(ga)}, {"op": "run", "conn": 1, "events": cut(gb)}, {"op": "snap"}]
+    views.append((ga.view(), gb.view()))
+    inp = {"world": "up4", "cfg": cfg, "seed": 1, "max_pause_us": 0, "conns": [{"id": 0, "phases": []}, {"id": 1, "phases": []}],
+           "reports": False, "watchdog_s": 120, "ddn": [], "sizes": {}, "script": script}
+    meta = [{"id": 0, "intents": ga.intents, "views": [v[0] for v in views], "order": ga.order},
+            {"id": 1, "intents": gb.intents, "views": [v[1] for v in views], "order": gb.order}]
+    return {"tag": tag, "world": "up4", "input": inp, "meta": meta, "final_empty": True, "handoff": [kind, mode]}
+
+
+def up4_abstract(snap):
+    """the UP4 datapath state up to the identifiers the plug-in chooses: what two runs must agree on"""
+    tabs = {}
+    for r in snap["up4_tables"]:
+        tabs.setdefault(r["table_name"].split(".")[-1], []).append(r)
+    peers = {}
+    for r in tabs.get("tunnel_peers", []):
+        m, p = up4_fields(r)
+        peers[int(list(m.values())[0]["value"])] = p.get("dst_addr")
+    apps = {}
+    for r in tabs.get("applications", []):
+        m, p = up4_fields(r)
+        apps[p.get("app_id")] = json.dumps(sorted((k, {x: v.get(x) for x in ("value", "mask", "low", "high", "prefix")}) for k, v in m.items()))
+    dl = []
+    for r in tabs.get("sessions_downlink", []):
+        m, p = up4_fields(r)
+        pid = p.get("tunnel_peer_id")
+        dl.append((int(m["ue_address"]["value"]), "none" if pid is None else peers.get(pid, "DANGLING")))
+    term = []
+    for t in ("terminations_uplink", "terminations_downlink"):
+        for r in tabs.get(t, []):
+            m, _ = up4_fields(r)
+            aid = int(m["app_id"]["value"]) if "app_id" in m and m["app_id"].get("value") else 0
+            term.append((t, int(m["ue_address"]["value"]), "any" if aid == 0 else apps.get(aid, "DANGLING")))
+    pools, init = snap["up4_pools"], snap["up4_pools_init"]
+    return {"peers": sorted(peers.values()), "apps": sorted(apps.values()), "sessions_downlink": sorted(dl), "terminations": sorted(term),
+            "sessions_uplink": len(tabs.get("sessions_uplink", [])),
+            "pool_deltas": {k: init[k] - pools[k] for k in ("tunnel_peer_pool", "application_pool", "counter_pool")},
+            "plugin_counts": {k: pools[k] for k in ("tunnel_peers", "applications", "ue_to_fseid", "fseid_to_ue")}}
 
 
 def collision_history(rng):
@@ -598,7 +692,7 @@ def monitor(sc, res, table):
         else:
             for sig, msg in mon_up4(snap, None, ph):
                 out.append((sig, msg))
-        if ph == len(o["snaps"]) - 1 and len(o["snaps"]) == 3:
+        if ph == len(o["snaps"]) - 1 and sc.get("final_empty", len(o["snaps"]) == 3):
             # everything was deleted
             if store:
                 out.append(("sessions-left", f"after all deletions {len(store)} sessions are still stored: {lse[:5]}"))
@@ -668,6 +762,48 @@ def coq_cases(sc, o):
 
 
 # ------------------------------------------------------------------------------------------------ the check
+
+def handoff_scenarios(hseed):
+    scs = []
+    for kind in HANDOFF_KINDS:
+        for mode in ("hold", "AB", "BA"):
+            sc = handoff_scenario(random.Random(f"{hseed}-{kind}"), kind, mode, f"handoff_{kind}_{mode}")
+            sc["hseed"] = hseed
+            scs.append(sc)
+    return scs
+
+
+def judge_handoffs(scs, results):
+    """a held run must end in the state of one of the two one-at-a-time orders (up to the identifiers the plug-in chooses);
+    if it does not, that is the failure (its symptoms - dangling references, later rejections, leaks - go into the message)"""
+    by = {}
+    for sc, res in zip(scs, results):
+        if sc.get("handoff"):
+            by.setdefault(sc["handoff"][0], {})[sc["handoff"][1]] = (sc, res)
+    for kind, runs in by.items():
+        if "hold" not in runs:
+            continue
+        sc, res = runs["hold"]
+        o = res["obs"]
+        if not o or not o.get("snaps"):
+            continue
+        tr = [t for t in o.get("script_trace", []) if t.get("op") == "wait_held"]
+        res["overlap"] = bool(tr and tr[0].get("held"))
+        mine = up4_abstract(o["snaps"][0])
+        serial = []
+        for mode in ("AB", "BA"):
+            if mode in runs and runs[mode][1]["obs"] and runs[mode][1]["obs"].get("snaps"):
+                serial.append(up4_abstract(runs[mode][1]["obs"]["snaps"][0]))
+        if serial and mine not in serial:
+            hard = [f for f in res["fails"] if f[0].startswith(("race:", "fatal:", "panic", "hung"))]
+            soft = [f for f in res["fails"] if f not in hard]
+            diff = {k: (mine[k], serial[0][k]) for k in mine if mine[k] != serial[0][k]}
+            table, utype, a_does, shared = HANDOFF_KINDS[kind]
+            msg = (f"association 0's {utype} of {table} was held at the P4Runtime server while association 1 established a session using the same "
+                   f"{'tunnel peer' if shared == 'peer' else 'application filter'}: the datapath ends in a state that neither one-at-a-time order "
+                   f"produces (held run vs serial: {json.dumps(diff)[:1200]}); symptoms: " + "; ".join(m for _, m in soft[:5]))
+            res["fails"] = hard + [(f"handoff:{kind}:not-a-serial-outcome", msg)]
+
 
 def revive(sc):
     """a scenario read back from a replay file: JSON turned the integer keys of the views into strings"""
@@ -752,9 +888,14 @@ def run(tier, seed, replay=None):
     # ---- scenarios
     if replay:
         rp = json.load(open(replay))["case"]
-        scs = [revive(rp["scenario"])] if "scenario" in rp else []
+        scs = []
+        if "scenario" in rp:
+            if rp["scenario"].get("handoff"):
+                scs = [h for h in handoff_scenarios(rp["scenario"].get("hseed", seed)) if h["handoff"][0] == rp["scenario"]["handoff"][0]]
+            else:
+                scs = [revive(rp["scenario"])]
     else:
-        scs = scenarios_for(rng, tier)
+        scs = scenarios_for(rng, tier) + handoff_scenarios(seed)
     try:
         binary = build_harness(race=True)
     except HarnessError as e:
@@ -774,6 +915,12 @@ def run(tier, seed, replay=None):
             t.start()
         for t in ths[k:k + par]:
             t.join()
+    judge_handoffs(scs, results)
+    ck.notes["handoff"] = {sc["tag"]: {"overlap_reached": res.get("overlap")} for sc, res in zip(scs, results)
+                           if sc.get("handoff") and sc["handoff"][1] == "hold"}
+    if table is not None:
+        ck.notes["atomic_regions"] = {a["func"]: {"covered": a["covered"], "dp_inside": a["dp_inside"], "regions": len(a["regions"])}
+                                      for a in table.get("atomic", [])}
     dist = {}
     cases, kept = [], []
     for sc, res in zip(scs, results):
@@ -796,7 +943,8 @@ def run(tier, seed, replay=None):
             seen.add(sig)
             if sig.startswith("race:"):
                 dist["race_reports/" + sig[5:]] = dist.get("race_reports/" + sig[5:], 0) + 1
-            slim = {"tag": sc["tag"], "world": sc["world"], "judge": sc.get("judge"), "input": sc["input"], "meta": [{k2: v for k2, v in m.items() if not k2.startswith("_")} for m in sc["meta"]]}
+            slim = {"tag": sc["tag"], "world": sc["world"], "judge": sc.get("judge"), "handoff": sc.get("handoff"), "hseed": sc.get("hseed"),
+                    "final_empty": sc.get("final_empty"), "input": sc["input"], "meta": [{k2: v for k2, v in m.items() if not k2.startswith("_")} for m in sc["meta"]]}
             ck.fail(sig, f"[{sc['tag']}] {msg}"[:6000], {"scenario": slim, "exit_status": res["rc"]})
         ck.notes.setdefault("scenario_wall_s", {})[sc["tag"]] = res["wall"]
         if o and sc["world"] != "up4" and o.get("snaps") and len(o["snaps"]) == 3:
